@@ -144,7 +144,6 @@ structure ChanWF (s : Srv) (k : Str) (sc : SChan) : Prop where
 
 structure SrvWF (s : Srv) : Prop where
   cfg : s.cfg.valid = true
-  mp : s.cfg.multiPrefix = true
   users : ∀ k u, aget s.users k = some u →
     lower u.nick = k ∧ validNick u.nick = true ∧ validWord u.ident = true ∧ validWord u.host = true
   bot : ∃ u, aget s.users (lower s.bot) = some u ∧ u.nick = s.bot
@@ -153,28 +152,58 @@ structure SrvWF (s : Srv) : Prop where
 
 /-! ### the coupling -/
 
-structure ChanMatches (sc : SChan) (ch : Chan) : Prop where
-  users : ∀ x, x ∈ ch.users ↔ ∃ f, (x, f) ∈ sc.members
-  ops : ∀ x, x ∈ ch.ops ↔ ∃ f, (x, f) ∈ sc.members ∧ f.o = true
-  halfops : ∀ x, x ∈ ch.halfops ↔ ∃ f, (x, f) ∈ sc.members ∧ f.h = true
-  voices : ∀ x, x ∈ ch.voices ↔ ∃ f, (x, f) ∈ sc.members ∧ f.v = true
-  topic : ch.topic = sc.topic
-  modes : ∀ m, aget ch.modes m = aget sc.modes m
-  bans : ∀ x, x ∈ ch.bans ↔ x ∈ sc.bans.map lower
+/-- every nick in the bot's set `S` is a member with property `P` -/
+def Sub (S : List Str) (ms : List (Str × Flags)) (P : Flags → Prop) : Prop :=
+  ∀ x, x ∈ S → ∃ f, (x, f) ∈ ms ∧ P f
+/-- every member with property `P` is in the bot's set `S` -/
+def Sup (S : List Str) (ms : List (Str × Flags)) (P : Flags → Prop) : Prop :=
+  ∀ x, (∃ f, (x, f) ∈ ms ∧ P f) → x ∈ S
 
-def ChanRel (s : Srv) : Option SChan → Option Chan → Prop
+/-- the bot's set never contains a wrong nick; it is complete when `full` holds -/
+structure Tracks (full : Prop) (S : List Str) (ms : List (Str × Flags)) (P : Flags → Prop) : Prop where
+  sub : Sub S ms P
+  sup : full → Sup S ms P
+
+theorem Tracks.iff {S : List Str} {ms : List (Str × Flags)} {P : Flags → Prop} (h : Tracks True S ms P) (x : Str) :
+    x ∈ S ↔ ∃ f, (x, f) ∈ ms ∧ P f := ⟨h.sub x, h.sup trivial x⟩
+
+/-- the bot's record `ch` of a channel against the server's `sc`.
+`mp`: multi-prefix negotiated; `ms` / `bs`: RPL_CHANNELMODEIS / the ban list reached the bot since it joined.
+Members, ops and topic are exact; halfops and voices are exact with multi-prefix and otherwise never wrong
+(a NAMES reply then shows only the highest status); modes are a sub-map of the server's, bans a subset, and
+both exact once the corresponding reply was received. -/
+structure ChanMatches (mp ms bs : Bool) (sc : SChan) (ch : Chan) : Prop where
+  users : Tracks True ch.users sc.members (fun _ => True)
+  ops : Tracks True ch.ops sc.members (fun f => f.o = true)
+  halfops : Tracks (mp = true) ch.halfops sc.members (fun f => f.h = true)
+  voices : Tracks (mp = true) ch.voices sc.members (fun f => f.v = true)
+  topic : ch.topic = sc.topic
+  modes : ∀ m, aget ch.modes m = aget sc.modes m ∨ aget ch.modes m = none
+  modesFull : ms = true → ∀ m, aget ch.modes m = aget sc.modes m
+  bans : ∀ x, x ∈ ch.bans → x ∈ sc.bans.map lower
+  bansFull : bs = true → ∀ x, x ∈ sc.bans.map lower → x ∈ ch.bans
+
+theorem ChanMatches.users_iff {mp ms bs : Bool} {sc : SChan} {ch : Chan} (h : ChanMatches mp ms bs sc ch) (x : Str) :
+    x ∈ ch.users ↔ ∃ f, (x, f) ∈ sc.members := by
+  have := h.users.iff x
+  simpa using this
+
+def Srv.mSynced (s : Srv) (k : Str) : Bool := decide (k ∈ s.modesSynced)
+def Srv.bSynced (s : Srv) (k : Str) : Bool := decide (k ∈ s.bansSynced)
+
+def ChanRel (s : Srv) (k : Str) : Option SChan → Option Chan → Prop
   | none, none => True
   | none, some _ => False
   | some sc, none => sc.has s.botKey = false
-  | some sc, some ch => sc.has s.botKey = true ∧ ChanMatches sc ch
+  | some sc, some ch => sc.has s.botKey = true ∧ ChanMatches s.cfg.multiPrefix (s.mSynced k) (s.bSynced k) sc ch
 
-/-- the bot's view equals the projection of the server state:
-its nick; the channels it is on, with members, status flags, topic, modes and bans;
-the hostmask of every nick it can see; its own prefix once it is on a channel. -/
+/-- the bot's view against the server state, as far as the server has told the bot:
+its nick; the channels it is on (see `ChanMatches`); the hostmask of every user whose current hostmask the
+server has shown to the bot (`told`); its own prefix once it is on a channel. -/
 structure Coupled (s : Srv) (b : Bot) : Prop where
   nick : b.nick = s.bot
-  chans : ∀ k, ChanRel s (aget s.chans k) (aget b.channels k)
-  hosts : ∀ k u, aget s.users k = some u → s.visible k = true → aget b.n2h k = some u.mask
+  chans : ∀ k, ChanRel s k (aget s.chans k) (aget b.channels k)
+  hosts : ∀ k u, aget s.users k = some u → k ∈ s.told → aget b.n2h k = some u.mask
   pfx : ∀ k sc, aget s.chans k = some sc → sc.has s.botKey = true →
     ∃ u, aget s.users s.botKey = some u ∧ b.pfx = u.mask
   cfgNick : b.cfgNick = s.cfg.botNick
